@@ -404,3 +404,61 @@ def _last_index(node: ast.AST):
     if isinstance(node, ast.Subscript) and isinstance(node.slice, ast.Constant):
         return node.slice.value
     return None
+
+
+# --------------------------------------------------------------------------------------
+# STEP-KEY: step keys are `family[.suffix]`; nothing may look a step up by its bare family name
+# --------------------------------------------------------------------------------------
+_STEP_KEY_POSITIVE = '''
+def f(cfg):
+    if "validation" in cfg["pipeline"]:
+        return cfg["pipeline"]["validation"]["validation_method"]
+'''
+
+
+def _step_key_sites(fn: ast.AST, families: set) -> List[Tuple[ast.AST, str]]:
+    out = []
+    for n in ast.walk(fn):
+        if isinstance(n, ast.Compare) and len(n.ops) == 1 and isinstance(n.ops[0], (ast.In, ast.NotIn)) and isinstance(n.left, ast.Constant) and n.left.value in families:
+            c = n.comparators[0]
+            if isinstance(c, ast.Subscript) and isinstance(c.slice, ast.Constant) and c.slice.value == "pipeline":
+                out.append((n, n.left.value))
+        if isinstance(n, ast.Subscript) and isinstance(n.slice, ast.Constant) and n.slice.value in families:
+            b = n.value
+            if isinstance(b, ast.Subscript) and isinstance(b.slice, ast.Constant) and b.slice.value == "pipeline":
+                out.append((n, n.slice.value))
+    return out
+
+
+def rule_step_key(ctx: Ctx, rid: str) -> int:
+    """No lookup of a pipeline step by its bare family name.  Returns the number of functions scanned."""
+    tree = ctx.tree
+    rows, _ = transition_table(tree, "_transitions_run")
+    families = {r["trigger"] for r in rows if isinstance(r.get("trigger"), str)}
+    if len(families) < 8:
+        raise AnalysisError(f"{rid}: only {len(families)} step families found in the run table")
+    pos = ast.parse(_STEP_KEY_POSITIVE).body[0]
+    if len(_step_key_sites(pos, families)) != 2:
+        raise AnalysisError(f"{rid}: the positive example is no longer recognised")
+    n = 0
+    for rel in (SM, "pandora/check_configuration.py", "pandora/__init__.py", "pandora/Pandora.py"):
+        if rel not in tree.py_files("pandora"):
+            continue
+        for q, fn in sorted(tree.funcs(rel).items()):
+            if "." in q and q.split(".")[-2] != MACHINE and rel == SM:
+                continue
+            n += 1
+            for node, fam in _step_key_sites(fn, families):
+                # nested functions are visited with their parent by ast.walk: report once, at the innermost owner
+                if getattr(enclosing(node), "_qual", q) != q:
+                    continue
+                ctx.ob(rid, rel, node, f"{q}: `{src(node)[:90]}` looks the `{fam}` step up by its bare family name", False, expected=f"a match on step.split('.')[0] == '{fam}' over the keys of the pipeline", detail=f"steps may be named `{fam}.suffix` (the machine triggers on the part before the dot): an exact-key lookup misses them, so the checked pipeline does not run as written")
+            ctx.ob(rid, rel, fn, f"{q}: no step is looked up by a bare family name", True)
+    return n
+
+
+def enclosing(node: ast.AST):
+    cur = getattr(node, "_parent", None)
+    while cur is not None and not isinstance(cur, (ast.FunctionDef, ast.AsyncFunctionDef)):
+        cur = getattr(cur, "_parent", None)
+    return cur
